@@ -63,7 +63,11 @@ def run(run):
              "refusal matrix (LTSV value with TAB / LF, LTSV label, fixed-length overflow, JSON path through a scalar; the unspellable cell in the "
              "first / a middle / the last record and field; sinks: EncodeView into a buffer, processor --out writer, processor stdout, and the csvq "
              "binary built from the tree under test: --out FILE new and existing, stdout, UPDATE + COMMIT, CREATE TABLE AS - zero bytes written, "
-             "files unchanged, nothing left behind), then generated (incl. a share of refusal injections at random positions): "
+             "files unchanged, nothing left behind), the dialect witnesses (every format x every attribute FileInfo.ExportOptions carries - delimiter, "
+             "positions, encoding, line break, header, enclose-all, JSON escape, pretty print - through UPDATE + COMMIT in a session whose own settings "
+             "are the OPPOSITE; bytes compared with what the file's dialect writes), the commit histories (a COMMIT refused by an unspellable cell after "
+             "more than 4 KiB of records, repair + DELETE, COMMIT again: committed bytes = those of a control run without the refused attempt; LTSV, "
+             "fixed-length, CSV/TSV in Shift_JIS), then generated (incl. a share of refusal injections at random positions): "
              "tables of 0-50 rows x 1-6 columns, plus a size band of 280-700 records x 2-3 short columns around the loaders' prepared capacity "
              "(fileLoadingPreparedRecordSetCap = 300: 298-303, 301-380, 280-700) in the decode stream (CSV/TSV/LTSV/fixed, model = implementation) and in the "
              "write-then-read law (all six formats; law roundtrip:<fmt>:record_count); cells NULL / strings / integers / floats / booleans / ternaries / datetimes; string texts composed from "
